@@ -29,6 +29,17 @@ pub fn handle_replace(
     output: OutputFormat,
     quiet: bool,
 ) -> Result<()> {
+    // Like `rename`: everything from the scan to the apply happens under the workspace lock
+    // (a dry run writes nothing and needs no lock)
+    let _lock = if dry_run {
+        None
+    } else {
+        Some(
+            renamify_core::LockFile::acquire(&PathBuf::from(".renamify"))
+                .context("Failed to acquire lock for renamify operation")?,
+        )
+    };
+
     // Create plan options for regex/literal replacement
     let options = PlanOptions {
         exclude_match: vec![],
